@@ -955,4 +955,40 @@ theorem shuf_reach {c : Cfg V E} {init : Pid → Entry V E} {progs : Tid → Lis
   | start => exact shuf_init c init progs clock
   | next t _ hs ih => exact shuf_step ih t hs
 
+/-! ### the calls of the funnel made by wrappers and requests -/
+
+theorem annR_append (o : Oracle V E) (a b : List (Op V E)) : annR o (a ++ b) = annR o a ++ annR o b := by
+  induction a with
+  | nil => rfl
+  | cons op rest ih => cases op <;> simp [annR, ih]
+
+theorem annR_announces (o : Oracle V E) (p : Pid) (evs : List (Ev V E)) :
+    annR o (evs.map (fun ev => Op.announce p ev .absent)) = evs.map (fun ev => (p, resolve o ev)) := by
+  induction evs with
+  | nil => rfl
+  | cons ev rest ih => simp [annR, ih]
+
+theorem annR_guarded (o : Oracle V E) (p : Pid) (evs : List (Ev V E)) :
+    annR o (guarded p evs) = evs.map (fun ev => (p, resolve o ev)) := by
+  simp [guarded, annR_append, annR_announces, annR]
+
+/-- the calls of the funnel the program of a `change` request makes are those of `changeEvs`, all on parameter `p` -/
+theorem annR_changeOps (o : Oracle V E) (k : Cid) (p : Pid) (rq : ChangeReq V) (ck : Bool) (inner : List V)
+    (w : WriteRes V) :
+    annR o (changeOps o k p rq ck inner w) = (changeEvs o rq ck inner w).map (fun ev => (p, resolve o ev)) := by
+  unfold changeOps changeEvs
+  by_cases hro : rq.readonly = true
+  · simp [hro, changeArg, annR]
+  · cases himp : rq.imported with
+    | none => simp [himp, changeArg, annR]
+    | some v =>
+      have hro' : rq.readonly = false := by simpa using hro
+      cases hv : changeArg o rq with
+      | none => simp [hro', himp, hv, annR_append, annR]
+      | some v' => simp [hro', himp, hv, annR_append, annR, annR_guarded]
+
+theorem annR_readReqOps (o : Oracle V E) (k : Cid) (p : Pid) (inner : List V) (res : ReadRes V E) :
+    annR o (readReqOps o k p inner res) = (readEvs o inner res).map (fun ev => (p, resolve o ev)) := by
+  simp [readReqOps, annR_append, annR, annR_guarded]
+
 end Frappy.UpdateSys
